@@ -70,5 +70,31 @@ Definition bk_w1 : world := {| loose := []; packs := [(0%Z, mkFile [1%N] [1%N])]
 Definition bk_run : run := mkRun bk_w0 [(1%N, bk_w1)] bk_w1 bk_w1 [(0%Z, bk_w1)].
 Example C15_run_ex : stored (fun b => Some b) (backup_of bk_run) 1%N = Some [1%N] /\ get_loose (backup_of bk_run) 1%N = None.
 Proof. vm_compute. split; reflexivity. Qed.
+(* ... and that run meets the hypotheses of the theorems above (H = first byte, inflate = identity): invariant at every instant,
+   monotone steps between the instants, every listed loose entry and pack transferred once *)
+Definition bk_H (b : bytes) : key := hd 0%N b.
+Lemma bk_mono_01 : Mono bk_w0 bk_w1.
+Proof.
+  split; [intros r []|split].
+  - intros id f Hp. cbn in Hp. discriminate.
+  - intros k f Hl. right. unfold get_loose in Hl. cbn in Hl. destruct (N.eqb_spec k 1) as [->|]; [left; reflexivity|discriminate].
+Qed.
+Example C15_run_ex_valid : Inv bk_H (fun b => Some b) bk_w0 /\ valid_run bk_H (fun b => Some b) bk_w0 bk_run.
+Proof.
+  assert (I0 : Inv bk_H (fun b => Some b) bk_w0) by (apply inv_b_sound; vm_compute; reflexivity).
+  assert (I1 : Inv bk_H (fun b => Some b) bk_w1) by (apply inv_b_sound; vm_compute; reflexivity).
+  split; [exact I0|]. unfold valid_run, run_worlds, bk_run. cbn [wl lcopies w2 wp pcopies map fst snd app chain].
+  split.
+  { split; [apply Mono_refl|]. split; [exact I0|].
+    split; [exact bk_mono_01|]. split; [exact I1|].
+    split; [apply Mono_refl|]. split; [exact I1|].
+    split; [apply Mono_refl|]. split; [exact I1|].
+    split; [apply Mono_refl|]. split; [exact I1|]. exact I. }
+  split; [|split; [|split]].
+  - intros k. unfold get_loose. cbn. destruct (N.eqb_spec k 1) as [E|E]; intros Hk; [rewrite E; left; reflexivity|congruence].
+  - repeat constructor. intros [].
+  - intros id. unfold get_pack. cbn. destruct (Z.eqb_spec id 0) as [E|E]; intros Hk; [rewrite E; left; reflexivity|congruence].
+  - repeat constructor. intros [].
+Qed.
 Example C15_phases : backup_phases = [PhLoose; PhDump; PhCopyDump; PhPacks; PhRest].
 Proof. reflexivity. Qed.
